@@ -48,6 +48,8 @@ class Ctx:
                 continue
             if q in exclude:
                 continue
+            if self.contracts.meta(q, v).get("optional") and q not in self.program.functions:
+                continue        # a helper a repair introduced: where it is absent, the contract of its caller decides
             out.append(self.contract_ob(q, v, pid=pid))
         return out
 
